@@ -405,6 +405,21 @@ def check(item, out, stats):
     from ..nir2smt import TS
     out.extra = {"components": 1}
     make = maker(item)
+    # two other members of the same family are built and elaborated first: whether (and to what) this component
+    # elaborates must not depend on what else has been elaborated in the process.  (A difference in BEHAVIOUR caused by
+    # such history is judged by the owning checks - e1.history_of - whose oracles are absolute; the miter below
+    # compares two elaborations that share the history.)
+    import zlib
+    from amaranth.hdl import Fragment
+    sibs = [c for c in (globals().get("_ALL_CONFIGS") or []) if isinstance(c, dict) and c.get("fam") == item.get("fam")
+            and c is not item and not c.get("shadow")]
+    x = zlib.crc32(cfg_key(item).encode())
+    for j in range(2):
+        if sibs:
+            try:
+                Fragment.get(maker(sibs[(x >> (8 * j)) % len(sibs)])().top, None)
+            except Exception:
+                pass
     try:
         h = make()
     except (ValueError, TypeError) as e:
